@@ -364,6 +364,110 @@ impl Drop for StreamHalf {
     }
 }
 
+// ------------------------------------------------------------------------------------------------ byte-stream transport
+// `Connect::io` runs chmux over a byte stream with a 4-byte little-endian length prefix per frame.  These adapters put
+// that byte stream on top of a harness `Link` (which carries frames), so that delivery control, fault injection and
+// wire logging stay the same: the write half parses the prefix and hands complete frames to the link, the read half
+// takes frames from the link, prefixes them and hands the bytes out in seeded pieces.
+
+/// Write half: bytes in, frames out (to the link's sink).
+pub struct ByteSink {
+    sink: SinkHalf,
+    buf: Vec<u8>,
+    /// a frame longer than this is a finding (the peer advertised it as its max_frame_length)
+    pub peer_max_frame: usize,
+}
+
+impl ByteSink {
+    pub fn new(sink: SinkHalf, peer_max_frame: usize) -> Self {
+        ByteSink { sink, buf: Vec::new(), peer_max_frame }
+    }
+    fn drain_frames(&mut self) -> io::Result<()> {
+        loop {
+            if self.buf.len() < 4 {
+                return Ok(());
+            }
+            let len = u32::from_le_bytes([self.buf[0], self.buf[1], self.buf[2], self.buf[3]]) as usize;
+            if len > self.peer_max_frame {
+                tr(json!({"ev": "st_oversize_emitted", "len": len, "max": self.peer_max_frame, "dir": self.sink.0.1}));
+            }
+            if self.buf.len() < 4 + len {
+                return Ok(());
+            }
+            let frame = Bytes::copy_from_slice(&self.buf[4..4 + len]);
+            self.buf.drain(..4 + len);
+            Pin::new(&mut self.sink).start_send(frame)?;
+        }
+    }
+}
+
+impl tokio::io::AsyncWrite for ByteSink {
+    fn poll_write(mut self: Pin<&mut Self>, cx: &mut Context<'_>, data: &[u8]) -> Poll<io::Result<usize>> {
+        match Pin::new(&mut self.sink).poll_ready(cx) {
+            Poll::Ready(Ok(())) => {}
+            Poll::Ready(Err(e)) => return Poll::Ready(Err(e)),
+            Poll::Pending => return Poll::Pending,
+        }
+        self.buf.extend_from_slice(data);
+        self.drain_frames()?;
+        Poll::Ready(Ok(data.len()))
+    }
+    fn poll_flush(mut self: Pin<&mut Self>, cx: &mut Context<'_>) -> Poll<io::Result<()>> {
+        Pin::new(&mut self.sink).poll_flush(cx)
+    }
+    fn poll_shutdown(mut self: Pin<&mut Self>, cx: &mut Context<'_>) -> Poll<io::Result<()>> {
+        Pin::new(&mut self.sink).poll_close(cx)
+    }
+}
+
+/// Read half: frames in (from the link's stream), bytes out in seeded pieces.
+pub struct ByteStream {
+    stream: StreamHalf,
+    pending: std::collections::VecDeque<u8>,
+    rng: Rng,
+    ended: bool,
+}
+
+impl ByteStream {
+    pub fn new(stream: StreamHalf, seed: u64) -> Self {
+        ByteStream { stream, pending: Default::default(), rng: Rng::new(seed ^ 0xB17E), ended: false }
+    }
+}
+
+impl tokio::io::AsyncRead for ByteStream {
+    fn poll_read(mut self: Pin<&mut Self>, cx: &mut Context<'_>, out: &mut tokio::io::ReadBuf<'_>) -> Poll<io::Result<()>> {
+        if self.pending.is_empty() && !self.ended {
+            match Pin::new(&mut self.stream).poll_next(cx) {
+                Poll::Ready(Some(Ok(frame))) => {
+                    let len = frame.len() as u32;
+                    self.pending.extend(len.to_le_bytes());
+                    self.pending.extend(frame.iter());
+                }
+                Poll::Ready(Some(Err(e))) => return Poll::Ready(Err(e)),
+                Poll::Ready(None) => self.ended = true,
+                Poll::Pending => return Poll::Pending,
+            }
+        }
+        if self.pending.is_empty() {
+            return Poll::Ready(Ok(())); // end of stream
+        }
+        // hand out a seeded number of bytes: split points fall anywhere, also inside the length prefix
+        let max = self.pending.len().min(out.remaining());
+        let n = match self.rng.below(4) {
+            0 => 1,
+            1 => self.rng.range(1, 7) as usize,
+            _ => max,
+        }
+        .min(max)
+        .max(1);
+        for _ in 0..n {
+            let b = self.pending.pop_front().unwrap();
+            out.put_slice(&[b]);
+        }
+        Poll::Ready(Ok(()))
+    }
+}
+
 /// Creates both directions of a transport; each knows the other (for faults hitting both).
 pub fn link_pair() -> (Link, Link) {
     let ab = Link::new(1);
@@ -642,7 +746,17 @@ pub async fn wait_tasks<T>(handles: &mut Vec<tokio::task::JoinHandle<T>>, links:
                 // Streamed (de)serialization runs on blocking threads in real time: before concluding that
                 // nothing will ever happen, give those threads a real-time grace period.
                 let mut progressed = false;
-                let grace_ms: u64 = std::env::var("VERIF_GRACE_MS").ok().and_then(|v| v.parse().ok()).unwrap_or(1500);
+                let base_ms: u64 = std::env::var("VERIF_GRACE_MS").ok().and_then(|v| v.parse().ok()).unwrap_or(1500);
+                // on a loaded machine helper threads are scheduled late: measure how long a trivial blocking task
+                // takes right now and stretch the grace period accordingly (at most tenfold)
+                let probe_t = std::time::Instant::now();
+                let probe = tokio::task::spawn_blocking(|| ());
+                while !probe.is_finished() && probe_t.elapsed().as_millis() < 2000 {
+                    std::thread::sleep(std::time::Duration::from_micros(200));
+                    tokio::task::yield_now().await;
+                }
+                let probe_ms = probe_t.elapsed().as_millis() as u64;
+                let grace_ms = base_ms.max(probe_ms * 300).min(base_ms * 10);
                 let t0 = std::time::Instant::now();
                 while (t0.elapsed().as_millis() as u64) < grace_ms {
                     std::thread::sleep(std::time::Duration::from_millis(1));
